@@ -758,7 +758,7 @@ class ProgGen:
                 if t in keep:
                     d2.set_block(ts=t[:len(t) // 2], Ds=D[0], val=d[t])
             d = d2
-        k = self._push({"f": "opaque", "a": []}, d, opname="diag_input")
+        k = self._push({"f": "input", "a": [], "tensor": tgen.to_model(d)}, d, opname="diag_input")
 
         def oracle(r):
             L = {ax: union_leg(self.cfg, lx[ax].s, lx[ax], d.get_legs(1))}
@@ -771,7 +771,7 @@ class ProgGen:
             return ("dense", ref, Lr)
         which = rng.choice(["broadcast", "dot_left", "dot_right"])
         if which == "broadcast":
-            return self._do(None, lambda V: V[k].broadcast(V[i], axes=ax), oracle, "broadcast", (k, i))
+            return self._do({"f": "broadcast", "a": [k, i], "axis": ax}, lambda V: V[k].broadcast(V[i], axes=ax), oracle, "broadcast", (k, i))
         if which == "dot_left":   # diag @ x over x's axis `ax`: result leg moves to front
             def oracle2(r):
                 kind, ref, Lr = oracle(r)
